@@ -45,7 +45,7 @@ ASSUMPTIONS = [
     "the limit rule: a connected point that already has k children is no longer a candidate parent "
     "(the root is exempt when exclude_soma is set)",
 ]
-REQUIRED = ["constructions", "points_multiset_checked", "mst_length_checked", "limit_checked",
+REQUIRED = ["constructions_under_custom_column_names", "constructions", "points_multiset_checked", "mst_length_checked", "limit_checked",
             "limit_root_not_exempt", "root_wants_more_than_k", "parents_replayed", "balanced_replayed",
             "float32_clouds", "integer_clouds", "clouds_with_coincident_points", "far_clouds", "soma_given", "soma_first_point", "class_PointsToMST",
             "class_PointsToCuntzMST", "tap_call", "transform_instances_reused",
@@ -226,6 +226,26 @@ def execute(ctx, case):
     ctx.count("constructions")
     if not np.array_equal(pts, pts_before):
         return ctx.violation("input-mutated", "the point array was modified", case)
+    if case["seed"] % 4 == 3 and len(pts) <= 120:
+        # the same construction asked to name its columns differently (`names=`): the same tree
+        # under those names
+        mk_ = (lambda nm: PointsToMST(furcations=k, exclude_soma=ex, sort=srt, names=nm)) \
+            if cls == "PointsToMST" else \
+            (lambda nm: PointsToCuntzMST(bf=bf, furcations=k, exclude_soma=ex, sort=srt, names=nm))
+        from rv.gen import trees as G
+
+        nm_ = G.custom_names(case["seed"] // 4 % 2)
+        try:
+            with warnings.catch_warnings():
+                warnings.simplefilter("ignore")
+                t_c = mk_(nm_)(pts, soma) if soma is not None else mk_(nm_)(pts)
+            ctx.count("constructions_under_custom_column_names")
+            r = None if tuple(t_c.names) == tuple(nm_) else f"the tree carries names {tuple(t_c.names)}"
+            r = r or G._same(t, t_c)
+        except Exception as e:
+            r = f"raised {type(e).__name__}: {str(e)[:120]}"
+        if r:
+            return ctx.violation("custom-column-names", f"{cls}(..., names={tuple(nm_)}): {r}", case)
     n = len(allp)
     if t.number_of_nodes() != n:
         return ctx.violation("point-count", f"{t.number_of_nodes()} nodes for {n} points (incl. "
